@@ -9,4 +9,5 @@ git -C /repo worktree add -q --detach $W HEAD || exit 2
 mkdir -p $W/OUT; git -C /repo diff $C $C~1 > $W/OUT/patch.diff
 ( cd $W && git apply --check OUT/patch.diff ) || { echo "reverse of $C does not apply to HEAD"; git -C /repo worktree remove --force $W; exit 2; }
 /verif/scripts/try_seed.sh $W $P "$@"
+mkdir -p /tmp/revert_replays/$C; cp /tmp/seedbuild/$C/replays/*.json /tmp/revert_replays/$C/ 2>/dev/null   # (kept for the regression corpus)
 git -C /repo worktree remove --force $W; rm -rf /tmp/seedbuild/$C; git -C /repo worktree prune
